@@ -3,7 +3,10 @@
 TLA+: spec/Varint.tla (VarintEnc/VarintDec/MinLen/AppendWithLen on 8-byte values, TPList/TPParse, descriptor semantics),
       spec/Varint_MC.tla (laws checked exhaustively over the boundary lattice Lat^8; entry-list round trip; emits cases),
       spec/Varint_Trace.tla (every observation of the real functions must be explained; first failing clause reported).
-Harness: harness/cmd/prng (varint, varread, tplist) - runs the real functions, logs bytes/panics, judges nothing."""
+Harness: harness/cmd/prng (varint, varread, tplist, tpown) - runs the real functions, logs bytes/panics, judges nothing.
+Ownership: tpown keeps every returned slice / extension and re-reads all of them after each later call; the trace spec's
+history variable `held` requires that no later call on another object changes a result handed out earlier.
+Reproduction: a rejected event is re-run alone; if that is fine, together with its predecessors in the same process (5 attempts)."""
 import concurrent.futures as cf
 import json, os, random, re
 import vlib
@@ -115,7 +118,13 @@ def run(ctx):
     values = [list(v) for v in lattice] + [b8(b + d) for b in BOUNDS for d in range(-2, 3)] + [b8(rand_value(rng)) for _ in range(nrand)]
     nsh = 4 if quick else 12
     nfull = len(values) - nrand + (3000 if quick else 40000)
-    evs = []
+    evs, origin = [], []          # origin[i] = (command, input of that harness process, name of the case list in it, index in it)
+    def drv_rec(cmd, cin, key, name):
+        r = ctx.drv(cmd, cin, prog="prng", name=name)
+        if len(r) != len(cin[key]):
+            raise vlib.Machinery("%s logged %d events for %d cases" % (cmd, len(r), len(cin[key])))
+        evs.extend(r)
+        origin.extend((cmd, cin, key, j) for j in range(len(r)))
     for k in range(nsh):
         part = values[k::nsh]
         prefix = [rng.randrange(256) for _ in range(rng.choice([0, 1, 5]))] if k else []
@@ -124,13 +133,13 @@ def run(ctx):
         ndst = sum(1 for i in range(k, len(values), nsh) if i < nfull)
         for tag, vs, dsts in (("a", part[:ndst], DSTS), ("b", part[ndst:], ["fresh"])):
             if vs:
-                evs += ctx.drv("varint", {"values": vs, "prefix": prefix, "widths": WIDTHS, "tail": tail, "dsts": dsts}, prog="prng", name="varint%d%s" % (k, tag))
+                drv_rec("varint", {"values": vs, "prefix": prefix, "widths": WIDTHS, "tail": tail, "dsts": dsts}, "values", "varint%d%s" % (k, tag))
     inputs = [[], [0], [63], [64], [64, 1], [128, 0, 0], [128, 0, 0, 1], [192] + [0] * 6, [192] + [0] * 7, [255] * 8, [255] * 9, [0x40, 0x25], [0x80, 0, 0, 0x25]]
     for _ in range(2000 if quick else 30000):
         n = rng.randrange(0, 11)
         first = rng.choice([0, 63, 64, 127, 128, 191, 192, 255, rng.randrange(256)])
         inputs.append(([first] + [rng.choice([0, 255, rng.randrange(256)]) for _ in range(n - 1)]) if n else [])
-    evs += ctx.drv("varread", {"inputs": inputs}, prog="prng", name="varread")
+    drv_rec("varread", {"inputs": inputs}, "inputs", "varread")
     lists = [[]] + [[d] for d in descs] + [list(p) for p in pairs]
     for _ in range(500 if quick else 6000):
         lists.append([rand_desc(rng, descs) for _ in range(rng.choice([1, 2, 3, 3, 5, 8, 14]))])
@@ -140,9 +149,26 @@ def run(ctx):
                   dict(D0, kind="MaxDatagramFrameSize", v=b8(0xFFFF)), dict(D0, kind="GREASE", length=1), dict(D0, kind="MaxIdleTimeout", v=b8(30000)),
                   dict(D0, kind="VersionInformation", chosen=[0, 0, 0, 1], avail=[[10, 10, 10, 10], [0, 0, 0, 1]], legacy=True),
                   dict(D0, kind="GREASEQUICBit"), dict(D0, kind="InitialSourceConnectionID", val=list(range(3))), dict(D0, kind="DisableActiveMigration")])
-    evs += ctx.drv("tplist", {"lists": lists}, prog="prng", name="tplist")
+    drv_rec("tplist", {"lists": lists}, "lists", "tplist")
     if len(evs) != len(values) + len(inputs) + len(lists):
         raise vlib.Machinery("harness logged %d events for %d cases" % (len(evs), len(values) + len(inputs) + len(lists)))
+
+    # ownership scenarios: one goroutine, every result kept, everything held re-read after each call (spec: WhyOwn / held)
+    pool = [l for l in lists if l and len(l) <= 8]
+    own_scs = []
+    for k in range(40 if quick else 400):
+        steps = []
+        for _ in range(rng.choice([2, 3, 5, 8, 12])):
+            kind = rng.choice(["marshal", "marshal", "ext", "ext", "append"])
+            steps.append({"kind": kind, "ds": [] if kind == "append" else (rng.choice(pool) if rng.random() < 0.9 else []),
+                          "x": b8(rand_value(rng)) if kind == "append" else b8(0)})
+        own_scs.append({"sc": k + 1, "steps": steps})
+    # the shape of the use in the library: one parameter list per connection, extension A written again after B was built
+    own_scs.append({"sc": len(own_scs) + 1, "steps": [{"kind": "ext", "ds": lists[-1], "x": b8(0)}, {"kind": "ext", "ds": list(reversed(lists[-1])), "x": b8(0)},
+                                                        {"kind": "marshal", "ds": lists[-1][:3], "x": b8(0)}, {"kind": "marshal", "ds": lists[-1][3:], "x": b8(0)}]})
+    oevs = ctx.drv("tpown", {"scenarios": own_scs}, prog="prng", name="tpown")
+    if len(oevs) != sum(len(x["steps"]) for x in own_scs):
+        raise vlib.Machinery("tpown logged %d events for %d steps" % (len(oevs), sum(len(x["steps"]) for x in own_scs)))
 
     # ------------------------------------------------------------------ 3. binding canaries (corrupted copies of good events)
     def clone(e):
@@ -209,6 +235,28 @@ def run(ctx):
             raise vlib.Machinery("binding canary %d (%s): TLC said %r, expected %r" % (k, e["ev"], got, want))
     ctx.traces += len(evs)
 
+    # ownership scenarios (contiguous, one TLC run) with their canaries: an untouched copy and a copy in which a
+    # result held since step 1 shows other bytes after a later call
+    def own_events(scid):
+        return [e for e in oevs if e["sc"] == scid]
+    src_sc = next((x["sc"] for x in own_scs if len(x["steps"]) >= 3 and all(e["panic"] == "" and e["out"] for e in own_events(x["sc"]))), None)
+    if src_sc is None:
+        raise vlib.Machinery("no ownership scenario with three successful steps to cut the canaries from")
+    ctl = [dict(clone(e), sc=9000) for e in own_events(src_sc)]
+    bad = [dict(clone(e), sc=9001) for e in own_events(src_sc)]
+    bad[2]["now"][0][-1] ^= 1
+    orows = oevs + ctl + bad
+    orej = tlc_trace(ctx, orows)
+    src_rej = any(orows[i]["sc"] == src_sc for i in orej)
+    got_ctl = [orej[i] for i in orej if orows[i]["sc"] == 9000]
+    got_bad = [orej[i] for i in orej if orows[i]["sc"] == 9001]
+    if not got_bad or (not src_rej and (got_ctl or got_bad[0] != "retained-result-changed-by-a-later-call")):
+        raise vlib.Machinery("ownership canaries: control %r, overwritten copy %r" % (got_ctl, got_bad))
+    own_rejected = {i: w for i, w in orej.items() if orows[i]["sc"] < 9000}
+    ctx.traces += len(own_scs)
+
+    ATTEMPTS = 5
+    unreproduced = []     # rejections seen once and never again: exit 2 unless other rejections of this run are reproduced
     # reproduce rejections in fresh processes: up to 3 cases per (event kind, reason), each executed by its own harness
     # process, all re-judged by one more TLC run; further cases with the same (kind, reason) are counted, not re-run
     chosen, per = [], {}
@@ -226,20 +274,80 @@ def run(ctx):
         again.append(r[0])
     r2 = tlc_trace(ctx, again) if again else {}
     first = {}
+    def describe(e):
+        return {"V": "quicvarint value %s" % bytes(e.get("x", [])).hex(), "R": "quicvarint.Read(%s)" % bytes(e.get("in", [])).hex(),
+                "TP": "TransportParameters.Marshal of %s" % [d["kind"] for d in e.get("ds", [])],
+                "Own": "%s of %s (step %s of a sequence of calls whose results are all kept)" % (e.get("kind"), [d["kind"] for d in e.get("ds", [])] or bytes(e.get("x", [])).hex(), e.get("step"))}[e["ev"]]
     for k, i in enumerate(chosen):
         e = evs[i]
-        if k not in r2:
-            raise vlib.Machinery("event %d rejected (%s) but the rejection did not reproduce" % (i, rejected[i]))
-        what = "%s: %s" % ({"V": "quicvarint value %s" % bytes(e.get("x", [])).hex(), "R": "quicvarint.Read(%s)" % bytes(e.get("in", [])).hex(),
-                           "TP": "TransportParameters.Marshal of %s" % [d["kind"] for d in e.get("ds", [])]}[e["ev"]], r2[k])
-        cmd, cin = case_of(e)
-        replay = {"command": cmd, "input": cin, "observed": again[k], "why": r2[k]}
-        first.setdefault((e["ev"], rejected[i]), (sig_of(e, r2[k]), what, replay))
-        ctx.finding(sig_of(e, r2[k]), what, replay)
+        if k in r2:
+            what = "%s: %s" % (describe(e), r2[k])
+            cmd, cin = case_of(e)
+            replay = {"command": cmd, "input": cin, "observed": again[k], "why": r2[k]}
+            sig = sig_of(e, r2[k])
+        else:
+            # alone it is fine: run it again together with everything that preceded it in the same harness process
+            # (same command, same order, same goroutine layout); behaviour that depends on earlier calls may also depend
+            # on the schedule / GC, so several attempts are made and one reproduction is enough
+            cmd, cin, key, idx = origin[i]
+            pin = dict(cin, **{key: cin[key][:idx + 1]})
+            hit = None
+            for a in range(ATTEMPTS):
+                pr = ctx.drv(cmd, pin, prog="prng", name="pre%d_%d" % (i, a))
+                prej = tlc_trace(ctx, pr)
+                same = sorted(j for j, w in prej.items() if w == rejected[i])
+                if same:
+                    hit = (a + 1, same, pr[same[-1]])
+                    break
+            if hit is None:
+                unreproduced.append("event %d rejected (%s) but the rejection reproduced neither alone nor after its %d predecessors (%d attempts)" % (i, rejected[i], idx, ATTEMPTS))
+                continue
+            what = ("%s: %s - NOT reproducible by this call alone; reproduced when the %d calls that preceded it in the same process are made first "
+                    "(attempt %d of %d, %d event(s) rejected with this reason in the re-run): the result depends on earlier calls on other objects" %
+                    (describe(e), rejected[i], idx, hit[0], ATTEMPTS, len(hit[1])))
+            replay = {"command": cmd, "input_prefix_len": idx + 1, "first_case": pin[key][0], "last_case": pin[key][-1],
+                      "rejected_indices_in_rerun": hit[1][:20], "observed": hit[2], "why": rejected[i], "note": "schedule/GC dependent"}
+            sig = "%s:%s:after-other-calls" % (e["ev"], rejected[i])
+        first.setdefault((e["ev"], rejected[i]), (sig, what, replay))
+        ctx.finding(sig, what, replay)
     for key, idx in per.items():
         for i in idx[3:]:
-            sig, what, replay = first[key]
-            ctx.finding(sig, what, replay)
+            if key in first:
+                sig, what, replay = first[key]
+                ctx.finding(sig, what, replay)
+
+    # ownership scenarios: a rejected step is re-run with its predecessors, i.e. the whole scenario alone in a fresh process
+    per = {}
+    for i, why in sorted(own_rejected.items()):
+        per.setdefault(why, []).append(i)
+    for why, idx in per.items():
+        firstf = None
+        for i in idx[:3]:
+            e = orows[i]
+            scn = next(x for x in own_scs if x["sc"] == e["sc"])
+            hit = None
+            for a in range(ATTEMPTS):
+                pr = ctx.drv("tpown", {"scenarios": [scn]}, prog="prng", name="own%d_%d" % (i, a))
+                prej = tlc_trace(ctx, pr)
+                same = sorted(j for j, w in prej.items() if w == why)
+                if same:
+                    hit = (a + 1, same, pr[same[0]])
+                    break
+            if hit is None:
+                unreproduced.append("ownership scenario %d step %d rejected (%s) but not again in %d re-runs" % (e["sc"], e["step"], why, ATTEMPTS))
+                continue
+            kinds = [st["kind"] for st in scn["steps"]]
+            what = "%s: %s; sequence %s, reproduced in a fresh process (attempt %d of %d)" % (describe(e), why, kinds, hit[0], ATTEMPTS)
+            firstf = firstf or ("Own:%s" % why, what, {"command": "tpown", "input": {"scenarios": [scn]}, "observed": hit[2], "why": why})
+            ctx.finding("Own:%s" % why, what, {"command": "tpown", "input": {"scenarios": [scn]}, "observed": hit[2], "why": why})
+        for i in idx[3:]:
+            if firstf:
+                ctx.finding(*firstf)
+    if unreproduced:
+        if not ctx.findings:
+            raise vlib.Machinery("; ".join(unreproduced[:5]))
+        for u in unreproduced:
+            ctx.note("not counted (seen once, not reproduced; other rejections of this run are reproduced): " + u)
 
     # ------------------------------------------------------------------ 5. vacuity
     # classes are computed from the INPUTS of the executed cases (coverage accounting, no judgement of outcomes)
@@ -270,16 +378,19 @@ def run(ctx):
     classes["tp_fake"] = sum(1 for e in TP if any(d["kind"] == "Fake" for d in e["ds"]))
     classes["tp_version_grease"] = sum(1 for e in TP if any(d["kind"] == "VersionInformation" and [10, 10, 10, 10] in d["avail"] for d in e["ds"]))
     classes["tp_long_value"] = sum(1 for e in TP if any(len(d["val"]) >= 64 for d in e["ds"]))
+    classes["own_steps_after_a_kept_marshal"] = sum(1 for x in own_scs for j, st in enumerate(x["steps"]) if any(p["kind"] == "marshal" and p["ds"] for p in x["steps"][:j]))
+    classes["own_steps_after_a_kept_extension"] = sum(1 for x in own_scs for j, st in enumerate(x["steps"]) if any(p["kind"] == "ext" and p["ds"] for p in x["steps"][:j]))
+    classes["own_steps_after_a_kept_append"] = sum(1 for x in own_scs for j, st in enumerate(x["steps"]) if any(p["kind"] == "append" for p in x["steps"][:j]))
     for k, v in classes.items():
         if v == 0:
             raise vlib.Machinery("vacuity: no executed case of class %s" % k)
 
     sample = [{"x": bytes(e["x"]).hex(), "append": bytes(e["append"]["out"]).hex(), "panic": e["append"]["panic"][:40]} for e in V[300:303]]
     sample.append({"list": [d["kind"] for d in TP[-1]["ds"]], "body": bytes(TP[-1]["out"]).hex()})
-    cov = {"evaluations": len(evs), "distinct_nontrivial": len({tuple(e["x"]) for e in V}) + len({tuple(e["in"]) for e in R}) + len({json.dumps(e["ds"], sort_keys=True) for e in TP}),
+    cov = {"evaluations": len(evs) + len(oevs), "distinct_nontrivial": len({tuple(e["x"]) for e in V}) + len({tuple(e["in"]) for e in R}) + len({json.dumps(e["ds"], sort_keys=True) for e in TP}),
            "rule": "evaluations = events (one 64-bit value through Append/Len/AppendWithLen x %d widths/Read, one Read input, or one parameter list through Marshal and the extension writer) "
                    "judged by TLC; distinct = distinct values + distinct Read inputs + distinct descriptor lists; values = TLC-emitted boundary-shaped lattice values (%d) + boundary+-2 + %d seeded random" % (len(WIDTHS), len(lattice), nrand),
-           "samples": sample, "values": len(V), "read_inputs": len(R), "parameter_lists": len(TP), "classes": classes,
+           "samples": sample, "values": len(V), "read_inputs": len(R), "parameter_lists": len(TP), "ownership_scenarios": len(own_scs), "ownership_steps": len(oevs), "classes": classes,
            "model": {"value_lattice_states": mc.distinct, "value_cfg": "Varint_MC_quick" if quick else "Varint_MC", "entry_list_states": tp.distinct + (tp3.distinct if tp3 else 0), "entry_list_max_len": 2 if quick else 3},
            "canaries": len(canaries), "exhaustive": False,
            "exhaustive_at_model_level": "Dec(Enc(x)) = x, Len(Enc(x)) = MinLen(x), widths and refusal for every x in Lat^8; TPParse(TPList(es)) = es for every list over the entry lattice"}
